@@ -93,8 +93,8 @@ func appendLog(b []byte, idx uint, addr common.Address, topics []common.Hash, da
 	return b
 }
 
-func observe(s *state.StateDB) (o Obs) {
-	for a := 0; a < NA; a++ {
+func observe(s *state.StateDB, na int) (o Obs) {
+	for a := 0; a < na; a++ {
 		ad := addrs[a]
 		x := &o.A[a]
 		if b := s.GetBalance(ad); b == nil {
